@@ -29,10 +29,10 @@ theorem binarise_mem {x : K} (h : 0 ≤ x ∧ x ≤ 1) : binarise x = 0 ∨ bina
   · exact Or.inl (le_antisymm (not_lt.1 g) h.1)
 
 theorem meshCoord_shift (n i d : Int) (s : K) : meshCoord n i (s + (d : K)) = meshCoord n (i - d) s := by
-  unfold meshCoord; push_cast; ring
+  unfold meshCoord Gen.meshCoord; push_cast; ring
 
 theorem meshCoord_half_turn (n i : Int) : meshCoord n (2 * (n / 2) - i) (0 : K) = -meshCoord n i (0 : K) := by
-  unfold meshCoord; push_cast; ring
+  unfold meshCoord Gen.meshCoord; push_cast; ring
 
 theorem hexSide_mem (half inner : K) (aa : Bool) (r c sn cn : K) :
     0 ≤ hexSide half inner aa r c sn cn ∧ hexSide half inner aa r c sn cn ≤ 1 := by
@@ -56,5 +56,14 @@ theorem min_binary {x y : K} (hx : x = 0 ∨ x = 1) (hy : y = 0 ∨ y = 1) : min
 theorem hexSide_neg (half inner : K) (aa : Bool) (r c sn cn : K) :
     hexSide half inner aa (-r) (-c) (-sn) (-cn) = hexSide half inner aa r c sn cn := by
   unfold hexSide; simp only [neg_mul_neg]
+
+theorem meshCoord_recentre (n S r : Int) (s : K) : meshCoord n (r + n / 2) s = meshCoord S (r + S / 2) s := by
+  unfold meshCoord Gen.meshCoord; push_cast; ring
+
+theorem meshRot_neg (a b ca sa : K) : Gen.meshRot (-a) (-b) ca sa = (-(Gen.meshRot a b ca sa).1, -(Gen.meshRot a b ca sa).2) := by
+  unfold Gen.meshRot; ext <;> simp only <;> ring
+
+theorem meshRot_unrotated (a b : K) : Gen.meshRot a b 1 0 = (a, b) := by
+  unfold Gen.meshRot; ext <;> simp
 
 end Lentil
